@@ -431,3 +431,78 @@ def c04_auto_index_passthrough(rec, params):
     if c.get('columns_auto') and _mentions_outside(cs.get('ck'), len(c['columns'])):
         return True
     return False
+
+
+def _tree_ordered(rows):
+    rows = [tuple(map(str, r)) for r in rows]
+    d = len(rows[0]) if rows else 0
+    for depth in range(1, d + 1):
+        seen, last = set(), None
+        for r in rows:
+            p = r[:depth]
+            if p != last:
+                if p in seen:
+                    return False
+                seen.add(p)
+                last = p
+    return True
+
+
+def _col(f, lab):
+    return f['cols'][[str(c) for c in f['columns']].index(str(lab))]['vals']
+
+
+@classifier
+def c20_pivot_singleton_func(rec, params):
+    '''pivot does not call the aggregation function on a group of one source row: the cell holds the row's value (pivot.py: len(values) == 1;
+    frame.py: "assume no aggregation necessary"), so a function with f([x]) != x (count, range, ...) gives a different cell there'''
+    cs = (rec.get('case') or {}).get('cs') or {}
+    exp, act = rec.get('expected') or {}, rec.get('actual') or {}
+    if rec.get('clause') != 'pivot_cells' or cs.get('op') != 'pivot' or exp.get('k') != 'pivot' or act.get('k') != 'pivot':
+        return False
+    f = cs['f']
+    n = len(f['index'])
+    differing = 0
+    for r, rk in enumerate(act['rows']):
+        er = exp['rows'].index(rk)
+        for c, ck in enumerate(act['cols']):
+            ec = exp['cols'].index(ck)
+            if act['cells'][r][c] == exp['cells'][er][ec]:
+                continue
+            differing += 1
+            src = [i for i in range(n) if [_col(f, l)[i] for l in cs['ixf']] == rk and (not cs['colf'] or [_col(f, l)[i] for l in cs['colf']] == ck[0])]
+            if len(src) != 1 or act['cells'][r][c] != _col(f, ck[1])[src[0]]:
+                return False
+    return differing > 0
+
+
+@classifier
+def c20_pivot_mixed_index_fields(rec, params):
+    '''pivot with two or more index fields of different dtypes builds its IndexHierarchy from the distinct tuples in first-seen order and fails
+    (ErrorInitIndex: invalid tree-form) when that order is not a tree'''
+    cs = (rec.get('case') or {}).get('cs') or {}
+    exp, act = rec.get('expected') or {}, rec.get('actual') or {}
+    if cs.get('op') != 'pivot' or act.get('k') != 'err' or act.get('cat') != 'init' or exp.get('k') != 'pivot' or len(cs['ixf']) < 2:
+        return False
+    f = cs['f']
+    kinds = {_col(f, l)[0][0] for l in cs['ixf'] if _col(f, l)}
+    if len(kinds) < 2:
+        return False
+    rows = []
+    for i in range(len(f['index'])):
+        t = [_col(f, l)[i] for l in cs['ixf']]
+        if t not in rows:
+            rows.append(t)
+    return not _tree_ordered(rows)
+
+
+@classifier
+def c20_join_without_composite_index(rec, params):
+    '''joins with composite_index=False on keys other than the two indices: the result is indexed by the preserved side's labels and the other
+    side is aligned BY LABEL to it, so matched rows get the fill value (right / outer) or a matched right row is repeated as unmatched (outer)'''
+    cs = (rec.get('case') or {}).get('cs') or {}
+    act = rec.get('actual') or {}
+    if cs.get('op') != 'join' or cs.get('composite') or act.get('k') != 'join':
+        return False
+    both_index = cs['lk']['depth'] and cs['rk']['depth'] and not cs['lk']['cols'] and not cs['rk']['cols']
+    return not both_index
